@@ -14,6 +14,7 @@ REGISTRY = {
     "C12": ("vf.props.history", None),
     "C13": ("vf.props.clone", None),
     "C16": ("vf.props.terms", None),
+    "C17": ("vf.props.problems", None),
     "C18": ("vf.props.layout", None),
     "C14": ("vf.props.treeprops", "C14"),
     "C15": ("vf.props.treeprops", "C15"),
